@@ -43,6 +43,14 @@ type c03Tx struct {
 
 func c03Gen(rng *core.Rng, tier string) *harness.Plan {
 	p := &harness.Plan{Seed: rng.Uint64(), Params: map[string]int64{}}
+	if rng.Chance(0.4) {
+		// concurrent mode (rig R3c): rounds of overlapping store calls, see c03conc.go
+		p.Params["conc"] = 1
+		p.Params["rounds"] = int64(6 + rng.IntN(10))
+		if tier == "thorough" {
+			p.Params["rounds"] = int64(10 + rng.IntN(40))
+		}
+	}
 	p.Params["utxos"] = int64(2 + rng.IntN(4))
 	p.Params["spends"] = int64(3 + rng.IntN(6))
 	n := 20 + rng.IntN(80)
@@ -62,17 +70,9 @@ func c03Gen(rng *core.Rng, tier string) *harness.Plan {
 	return p
 }
 
-func c03Exec(p *harness.Plan) *harness.Outcome {
-	c := newCtx("C03")
-	f, err := storerig.NewFix(7)
-	if err != nil {
-		return c.tool(err)
-	}
-	defer f.Close()
-	rng := core.NewRng(p.Seed)
-	ts := f.BaseTime()
-	var slots []*c03Slot
-	var txs []*c03Tx
+// c03Setup builds the slot and transaction universe of a run.
+func c03Setup(c *rctx, f *storerig.Fix, p *harness.Plan, rng *core.Rng) (slots []*c03Slot, txs []*c03Tx, ts uint64, fail *harness.Outcome) {
+	ts = f.BaseTime()
 
 	// utxo slots: finalized deposits owned by user 0
 	nU := int(p.P("utxos", 3))
@@ -80,11 +80,11 @@ func c03Exec(p *harness.Plan) *harness.Outcome {
 	for i := 0; i < nU; i++ {
 		d := f.MakeDeposit(common.BitcoinAssetId, common.BitcoinAssetId, "c6d0c728", common.NewInteger(10), fmt.Sprintf("c03-base-%d", i), 0, 0)
 		if err := f.Admit(d, false); err != nil {
-			return c.tool(err)
+			return nil, nil, 0, c.tool(err)
 		}
 		ts += uint64(time.Millisecond)
 		if _, err := f.Finalize(i%7, ts, []*common.VersionedTransaction{d}, nil); err != nil {
-			return c.tool(err)
+			return nil, nil, 0, c.tool(err)
 		}
 		bases = append(bases, d)
 		slots = append(slots, &c03Slot{kind: "utxo", in: &common.Input{Hash: d.PayloadHash(), Index: 0}, holder: -1})
@@ -148,6 +148,24 @@ func c03Exec(p *harness.Plan) *harness.Outcome {
 		}
 	}
 
+	return slots, txs, ts, nil
+}
+
+func c03Exec(p *harness.Plan) *harness.Outcome {
+	c := newCtx("C03")
+	f, err := storerig.NewFix(7)
+	if err != nil {
+		return c.tool(err)
+	}
+	defer f.Close()
+	rng := core.NewRng(p.Seed)
+	slots, txs, ts, fail := c03Setup(c, f, p, rng)
+	if fail != nil {
+		return fail
+	}
+	if p.P("conc", 0) == 1 {
+		return c03Conc(c, f, p, rng, slots, txs, ts)
+	}
 	readHolder := func(s *c03Slot) (crypto.Hash, error) {
 		switch s.kind {
 		case "utxo":
